@@ -18,6 +18,8 @@ var c02TwoCleanups = []Beh{BCleanupSkipCleanupPanic, BCleanupSkipCleanupFatal, B
 
 func c02Alphabet(ctx string) []Beh {
 	switch ctx {
+	case "custom-guarded": // only what is signalled through the methods of T survives a recover() in user code
+		return []Beh{BFatalA, BFatal, BFailNowC, BErrorf, BError, BFail, BCleanupErrorf, BCleanupFatal, BErrorfThenFatalA, BErrorEmpty, BPass, BCleanupPass}
 	case "body", "custom", "custom2":
 		return append(append(append([]Beh{}, AllFalsifying...), c02TwoCleanups...), BSkip, BSkipNow, BSkipf, BPass, BCleanupPass, BCleanupSkip)
 	default: // action, invariant: skipping there is C08's business
@@ -35,7 +37,7 @@ func c02Units(tier string, seed int64) []Unit {
 		steps  int
 	}
 	var scs []sc
-	for _, ctx := range []string{"body", "custom", "custom2", "action", "invariant"} {
+	for _, ctx := range []string{"body", "custom", "custom2", "action", "invariant", "custom-guarded"} {
 		for _, n := range []int{1, 5} {
 			scs = append(scs, sc{ctx, BPass, n, 3})
 			if ctx == "body" || ctx == "custom" {
